@@ -22,6 +22,7 @@ func famSesReent(t *testing.T, r *Rec) {
 	cfg := "ses cfg 25000 20000 1000 100000 default 1 0 - 0 -"
 	reentOverlap(r, cfg)
 	reentStalledUpload(r, cfg)
+	reentPollDuringEncode(r, cfg)
 	reentCallbackWindow(r, cfg)
 	reentUploadAcrossClose(r, cfg)
 	reentSlowCallback(r, cfg)
@@ -221,6 +222,45 @@ func reentStalledUpload(r *Rec, cfg string) {
 	if status[2] != 400 || closed != "transport_error" {
 		r.Violate("C11", "C11/overlap-not-refused/during-upload",
 			fmt.Sprintf("a data request overlapping one that was still uploading its body was answered %d (want 400) and the session closed with %q (want transport_error)", status[2], closed), lines)
+	}
+}
+
+// reentPollDuringEncode: a poll arrives while the answer to the pending one is still being encoded (the message
+// data is a reader that stalls): the pending poll is still outstanding, so the newcomer overlaps it (C11).
+func reentPollDuringEncode(r *Rec, cfg string) {
+	lines := []string{cfg, "ses hs polling 4 0 -", "ses poll s0", "ses sendslow s0 " + hx([]byte("slowly-read-message")), "ses poll s0", "ses unpark", "ses adv 10", "ses obs"}
+	outs, fault := runIsolated(lines, 12*time.Second)
+	r.scenarios++
+	r.Cover("reent/poll-during-encode")
+	if fault != "" && !strings.Contains(fault, "main_bubble_goroutine_has_exited") {
+		r.Violate("C09", fmt.Sprintf("C09/%s/poll-during-encode", strings.SplitN(fault, ":", 2)[0]), "a poll arriving while the answer to the pending one was being encoded made the server "+fault, lines)
+		return
+	}
+	answers := map[int][]int{}
+	closed, pend := "", "-"
+	for _, out := range outs {
+		if out == "-" || out == "ok" {
+			continue
+		}
+		o := parseObs(out)
+		for _, rs := range o.resps {
+			answers[rs.req] = append(answers[rs.req], rs.status)
+		}
+		for _, e := range o.events {
+			if e.who == "s0" && e.name == "close" {
+				closed = e.args[0]
+			}
+		}
+		pend = o.pend
+	}
+	// requests: 0 handshake, 1 the pending poll, 2 the overlapping poll
+	if len(answers[2]) != 1 || answers[2][0] != 400 || closed != "transport_error" {
+		r.Violate("C11", "C11/overlap-not-refused/during-encode",
+			fmt.Sprintf("a poll overlapping one whose answer was still being encoded was answered %v (want one 400) and the session closed with %q (want transport_error)", answers[2], closed), lines)
+	}
+	if len(answers[1]) != 1 || pend != "-" {
+		r.Violate("C11", "C11/request-never-answered/during-encode",
+			fmt.Sprintf("the first poll got %d answers and request(s) %s are still pending at the end: every accepted request gets exactly one response", len(answers[1]), pend), lines)
 	}
 }
 
